@@ -8,7 +8,7 @@ import lib
 from props import fsobs
 
 ID = 'C20'
-GEN_FILES = ['T_files_p8']
+GEN_FILES = ['T_files_p8', 'T_p8scii']
 COQ_PROPERTY = 'theories/Properties/C20.vo'
 COQ_EXTRA = []
 MODEL = ('ExC20', 'c20_main.ml')
@@ -22,7 +22,7 @@ RULE = ('four streams. re: every string of <= 5 (thorough: 6) tokens over {" ", 
         '"-- #include a.lua"), targets of the three kinds (.lua, .p8, .p8.png written by the real writer) in the cart '
         'directory and two levels of sub-directories, with and without final newline, empty, with tab separators at '
         'the edges, with include lines of their own; selectors 0..tabs+1; missing targets; host named absolutely or '
-        'relatively. Each load: process_includes(lines, filename) vs the extracted model on the same file-system view, and '
+        'relatively; some carts end inside their code section without a final newline. Each load: process_includes(lines, filename) vs the extracted model on the same file-system view, and '
         'the extracted Spec-only monitor holds_C20 on (cart code, directory content, file.from_file(cart).lua.to_lines()) '
         'and on the raw process_includes output. distinct+non-trivial = distinct (host lines, names) with >= 1 include line')
 CLAIM = dict(
@@ -37,7 +37,8 @@ CLAIM = dict(
           "defines exactly as the description does), C20_file_lines, and the refinement C20_in_place: for every cart, "
           "every directory content and every consistent file-system view, whenever the reference splice of "
           "Spec/SpliceSpec.v is defined the model's code text has exactly the reference lines (no host line merged "
-          "with an included one, with or without final newline) and fails when a file is missing; C20_model_holds "
+          "with an included one, with or without final newline) and fails when a file is missing; "
+          "C20_in_place_unterminated_last (the same for a cart whose last line has no newline); C20_model_holds "
           "(the monitor's predicate holds of the model). C20_glue_variant_refuted: with `yield line` (the code "
           "before the fix) the statement is false (vm_compute witness x=1 / a=bc=d); C20_tab_variant_refuted: so it is when "
           "tabs are selected on the lexer's chunks (a -->8 line inside a long string). Tie: regex sources + the way "
@@ -64,6 +65,14 @@ CASE_TIMEOUT = 120
 SB = {'root': None, 'view': None, 'content': None, 'view_ok': None}
 
 # ---------------------------------------------------------------- the target pool
+GLYPH = '\u25cf'                      # U+25CF, P8SCII byte 0x86 (Generated/T_p8scii.v): a PICO-8 glyph in a file name
+
+
+def to_p8scii(s):
+    """the P8SCII bytes of a harness string (ASCII + GLYPH), independent of picotool's converter"""
+    return b''.join(b'\x86' if ch == GLYPH else ch.encode('ascii') for ch in s)
+
+
 PAD = b'-- fixture fixture fixture fixture fixture fixture fixture fixture fixture\n'
 LUA_POOL = {
     'l0.lua': b'x=1\ny=2\n',
@@ -78,6 +87,8 @@ LUA_POOL = {
     'sub/l1.lua': b'sa=sb',
     'sub/deep/l0.lua': b'dx=1\ndy=2',
     'a.lua.lua': b'dbl=1\n',
+    GLYPH + 'lib.lua': b'glyph=1\n',                    # a file name with a PICO-8 glyph
+    'sub/' + GLYPH + '.lua': b'subglyph=1',
     'b.p8.lua': b'mix=1\n',
 }
 CART_CODES = {
@@ -92,10 +103,11 @@ CART_CODES = {
     't8': b's=[[\n-->8\n]]\nt=2\n-->8\nu=3\n',            # a long string opened in tab 0 and closed in tab 1
     't9': b'g=1 --[[ c\n-->8\nd ]]\nv=1',                   # a long comment across a tab boundary, unterminated end
     't11': b'  i=1  \n-->8\n\tj=2\t\n\n',                  # blanks around code, empty last line
+    't' + GLYPH: b'gl1=1\n-->8\ngl2=2\n',
     't10': b'-->8\n'.join(b'tab%d=%d\n' % (i, i) for i in range(12)),   # twelve tabs: selectors with two digits, 8 and 9
 }
 CART_DIRS = {'t0': ['', 'sub/', 'sub/deep/'], 't1': ['', 'sub/'], 't2': [''], 't3': [''], 't4': [''], 't5': [''],
-             't6': [''], 't7': [''], 't8': ['', 'sub/'], 't9': [''], 't10': [''], 't11': ['']}
+             't6': [''], 't7': [''], 't8': ['', 'sub/'], 't9': [''], 't10': [''], 't11': [''], 't' + GLYPH: ['']}
 MISSING = ['nope.lua', 'nope.p8', 'nope.p8.png', 'sub/nope.lua', 'l0.p8', 'dir.lua']     # dir.lua is a directory
 
 
@@ -289,7 +301,10 @@ def generate(tier, rng):
     names = all_names()
     for i in range(700 if quick else 12000):
         host, used = gen_host(rng, names)
-        yield {'kind': 'load', 'host': host, 'names': sorted(set(used)), 'mode': rng.choice(['abs', 'abs', 'rel', 'relc'])}
+        c = {'kind': 'load', 'host': host, 'names': sorted(set(used)), 'mode': rng.choice(['abs', 'abs', 'rel', 'relc'])}
+        if host and host[-1] and rng.random() < 0.08:
+            c['final_nl'] = False
+        yield c
 
 
 def corpus_cases():
@@ -314,6 +329,13 @@ def corpus_cases():
     yield {'kind': 'load', 'host': ['#include t10.p8:8', '#include t10.p8.png:10', '#include t10.p8:011', '#include t10.p8:12'],
            'names': ['t10.p8', 't10.p8.png'], 'mode': 'abs'}
     yield {'kind': 'load', 'host': ['#include ', 'x=1', '#include l0.lua:2', '#include a.txt', '#include l0.lua x'], 'names': ['l0.lua'], 'mode': 'abs'}
+    yield {'kind': 'load', 'host': ['x=1', '#include l1.lua', 'c=d'], 'names': ['l1.lua'], 'mode': 'abs', 'final_nl': False}
+    yield {'kind': 'load', 'host': ['x=1', '#include t5.p8:1'], 'names': ['t5.p8'], 'mode': 'abs', 'final_nl': False}
+    # the former name-decoding defect (fixed): a PICO-8 glyph in the name of the target
+    yield {'kind': 'load', 'host': ['a=1', '#include ' + GLYPH + 'lib.lua', '#include sub/' + GLYPH + '.lua', 'b=2'],
+           'names': [GLYPH + 'lib.lua', 'sub/' + GLYPH + '.lua'], 'mode': 'abs'}
+    yield {'kind': 'load', 'host': ['#include t' + GLYPH + '.p8:1', '#include t' + GLYPH + '.p8.png:0', '#include ' + GLYPH + GLYPH + '.lua'],
+           'names': ['t' + GLYPH + '.p8', 't' + GLYPH + '.p8.png'], 'mode': 'rel'}
     yield {'kind': 'nofile', 'host': ['x=1', '#include l0.lua']}
     yield {'kind': 'nofile', 'host': ['x=1', 'y=2']}
 
@@ -345,7 +367,7 @@ def _run_impl(case):
     from pico8.game import file as pfile
     from pico8.game.formatter import p8
     if case['kind'] == 'nofile':
-        data = fsobs.p8_text(''.join(x + '\n' for x in case['host']).encode('latin-1'))
+        data = fsobs.p8_text(''.join(x + '\n' for x in case['host']).encode('utf-8'))
         obs = {'S': S}
         with fsobs.quiet():
             try:
@@ -362,7 +384,10 @@ def _run_impl(case):
         return obs
     host_path = os.path.join(S, 'c', 'host.p8')
     cwd, arg = {'abs': (S, host_path), 'rel': (S, 'c/host.p8'), 'relc': (os.path.join(S, 'c'), 'host.p8')}[case['mode']]
-    data = fsobs.p8_text(''.join(x + '\n' for x in case['host']).encode('latin-1'))
+    if case.get('final_nl', True):
+        data = fsobs.p8_text(''.join(x + '\n' for x in case['host']).encode('utf-8'))
+    else:       # the file ends inside its code section, without a final newline
+        data = fsobs.p8_text('\n'.join(case['host']).encode('utf-8'), tail=b'')
     fsobs.write_file(host_path, data)
     obs = {'S': S, 'cwd': cwd, 'arg': arg, 'home': os.path.join(S, 'home'), 'host_path': host_path}
     with fsobs.environment(cwd=cwd, home=obs['home']), fsobs.quiet():
@@ -442,7 +467,7 @@ def compare(case, obs, answers):
 
 # ---------------------------------------------------------------- monitor side
 def _mon_files(obs):
-    return ';'.join('%s:%d:%s' % (fsobs.hx(n), k, fsobs.hx(t)) for n, k, t in obs.get('offered', [])) or '~'
+    return ';'.join('%s:%d:%s' % (fsobs.hx(to_p8scii(n)), k, fsobs.hx(t)) for n, k, t in obs.get('offered', [])) or '~'
 
 
 def monitor_requests(case, obs):
@@ -452,7 +477,7 @@ def monitor_requests(case, obs):
     if case['kind'] in ('tab', 'flines'):
         return []
     # the cart's code as the harness wrote it (ASCII), not as the implementation's reader returned it
-    host = ''.join(x + '\n' for x in case['host']).encode('latin-1')
+    host = to_p8scii(''.join(x + '\n' for x in case['host']) if case.get('final_nl', True) else '\n'.join(case['host']))
     fl = _mon_files(obs)
     r = ['holds %s %s %s' % (h(host), fl, h(b''.join(obs['pi'])) if 'pi' in obs else 'ERR')]
     # the loaded cart: when the splice itself succeeded (judged by the request above) but the spliced text is
@@ -494,6 +519,8 @@ def signature(case, obs):
     if ('pi_err' in obs) != ('load_err' in obs):
         return 'C20/pi-vs-load'
     if 'pi_err' in obs:
+        if obs['pi_err'] == 'UnicodeError':
+            return 'C20/name/not-decoded-as-p8scii'
         return 'C20/unexpected-error/' + obs['pi_err']
     multi = [n for n, k, t in obs.get('offered', []) if k and (b'[[' in t)]
     if multi and any(('#include' in x and n in x and ':' in x) for x in case['host'] for n in multi):
